@@ -3,6 +3,7 @@ package main
 // C17 facts: SST / WAL / bloom / fields constants (dkv/sst, dkv/bloom, dkv/fields).
 
 import (
+	"fmt"
 	"go/ast"
 	"go/token"
 	"sort"
@@ -172,33 +173,102 @@ func c17LockIndex(fn *ast.FuncDecl, mu string) int {
 
 // c17LockFacts: structural (hard) facts behind the atomic steps of the models.
 func c17LockFacts(fc *facts) {
-	// wal.Writer: the steps that restructure the segment list (Cut, Truncate, Rotate) run entirely under w.mu
-	// (only the sealed-flag check precedes the Lock); Put and Delete never touch the segment list.
+	// wal.Writer. What the recogniser establishes (and nothing more):
+	//  (1) Cut, Truncate, Rotate: `mu.Lock(); defer mu.Unlock()` covers the rest of the body, the mutex is not touched
+	//      elsewhere in the body, and no segment state is accessed before the Lock;
+	//  (2) field separation of the unlocked foreground writes from the concurrent Truncate: Put/Delete never mention
+	//      `sealedBuffers`; Truncate never mentions `<recv>.activeBuffer` nor `<recv>.latestSeqNum`;
+	//  (3) every mutating method (Put, Delete, Cut, Truncate, Rotate) starts with an `if` on `<recv>.sealed` whose body
+	//      panics; Save starts with such a guard too; `sealed` is written only by one CompareAndSwap(false, true), in Rotate.
+	// Not established here: that no Truncate is between its guard and its Lock while a Rotate runs (the guard precedes the
+	// Lock). In dkv both calls sit inside db.mu sections: C08's facts c08CaptureUnderLock / c08FlushTruncates.
 	wr := parseFile("dkv/wal/writer.go")
 	walOK := true
 	var why []string
+	bad := func(format string, a ...any) {
+		walOK = false
+		why = append(why, fmt.Sprintf(format, a...))
+	}
+	recvField := func(n ast.Node, recv, field string) bool {
+		found := false
+		ast.Inspect(n, func(x ast.Node) bool {
+			if s, ok := x.(*ast.SelectorExpr); ok && s.Sel.Name == field {
+				if id, ok := s.X.(*ast.Ident); ok && id.Name == recv {
+					found = true
+				}
+			}
+			return !found
+		})
+		return found
+	}
+	sealedGuardFirst := func(fn *ast.FuncDecl) bool {
+		if fn.Body == nil || len(fn.Body.List) == 0 {
+			return false
+		}
+		is, ok := fn.Body.List[0].(*ast.IfStmt)
+		if !ok || !recvField(is.Cond, c17Recv(fn), "sealed") || len(is.Body.List) == 0 {
+			return false
+		}
+		es, ok := is.Body.List[len(is.Body.List)-1].(*ast.ExprStmt)
+		return ok && c17CallName(es.X) == "panic"
+	}
 	for _, name := range []string{"Cut", "Truncate", "Rotate"} {
 		fn := findFuncOr(wr, "Writer", name)
 		i := c17LockIndex(fn, "mu")
 		if i < 0 {
-			walOK = false
-			why = append(why, name+": no `mu.Lock(); defer mu.Unlock()` covering the rest of the body")
+			bad("%s: no `mu.Lock(); defer mu.Unlock()` covering the rest of the body", name)
 			continue
 		}
 		for _, st := range fn.Body.List[:i] {
 			if c17Mentions(st, "sealedBuffers") || c17Mentions(st, "activeBuffer") {
-				walOK = false
-				why = append(why, name+": segment state touched before the lock")
+				bad("%s: segment state touched before the lock", name)
 			}
 		}
 	}
 	for _, name := range []string{"Put", "Delete"} {
 		if fn := findFuncOr(wr, "Writer", name); fn.Body == nil || c17Mentions(fn.Body, "sealedBuffers") {
-			walOK = false
-			why = append(why, name+": touches sealedBuffers")
+			bad("%s: touches sealedBuffers", name)
 		}
 	}
-	fc.set("walMuCoversSegments", 1, walOK, "wal.Writer lock shape ("+strings.Join(why, "; ")+")")
+	if fn := findFuncOr(wr, "Writer", "Truncate"); fn.Body != nil {
+		recv := c17Recv(fn)
+		if recvField(fn.Body, recv, "activeBuffer") || recvField(fn.Body, recv, "latestSeqNum") {
+			bad("Truncate: touches the fields Put/Delete write without the lock")
+		}
+	}
+	for _, name := range []string{"Put", "Delete", "Cut", "Truncate", "Rotate", "Save"} {
+		if !sealedGuardFirst(findFuncOr(wr, "Writer", name)) {
+			bad("%s: does not start with the sealed guard", name)
+		}
+	}
+	sealedWrites := 0
+	ast.Inspect(wr, func(x ast.Node) bool {
+		fd, ok := x.(*ast.FuncDecl)
+		if !ok || fd.Body == nil {
+			return true
+		}
+		ast.Inspect(fd.Body, func(y ast.Node) bool {
+			c, ok := y.(*ast.CallExpr)
+			if !ok {
+				return true
+			}
+			switch n := selName(c.Fun); {
+			case strings.HasSuffix(n, ".sealed.Store"), strings.HasSuffix(n, ".sealed.Swap"):
+				bad("%s: writes the sealed flag", fd.Name.Name)
+			case strings.HasSuffix(n, ".sealed.CompareAndSwap"):
+				sealedWrites++
+				if fd.Name.Name != "Rotate" || len(c.Args) != 2 || selName(c.Args[0]) != "false" || selName(c.Args[1]) != "true" {
+					bad("%s: unexpected CompareAndSwap on the sealed flag", fd.Name.Name)
+				}
+			}
+			return true
+		})
+		return false
+	})
+	if sealedWrites != 1 {
+		bad("sealed flag: %d CompareAndSwap sites", sealedWrites)
+	}
+	fc.set("walMuCoversSegments", 1, walOK, "wal.Writer lock / field-separation / sealed-guard shape ("+strings.Join(why, "; ")+")")
 
 	// Table.ensureMetadataLoaded: check, loadFooter() and `metadataLoaded = true` in this order inside one
 	// metadataMu critical section that lasts to the end of the body.
